@@ -137,6 +137,10 @@ func BuildRDB(kvs []KV, o Opts) []byte {
 		b.Write(EncStr(kv.Key))
 		switch kv.Type {
 		case 0:
+			if kv.Raw != nil {
+				b.Write(kv.Raw)
+				break
+			}
 			if kv.IntEnc {
 				if e, ok := encIntStr(kv.Str); ok {
 					b.Write(e)
@@ -586,6 +590,9 @@ func ValueBytes(kv KV) []byte {
 	var b bytes.Buffer
 	switch kv.Type {
 	case 0:
+		if kv.Raw != nil {
+			return kv.Raw // a string written in a chosen encoding (LZF); Str is what it decodes to
+		}
 		if kv.IntEnc {
 			if e, ok := encIntStr(kv.Str); ok {
 				return e
@@ -625,9 +632,14 @@ func lpStr(s string) []byte {
 // listpack (master id 1000-0, master entry with the single field "f", two
 // SAMEFIELDS entries 1000-1 {f v1} and 1005-0 {f v2}), length 2, last id
 // 1005-0, no consumer groups — and the commands it expands to for a 7.x target.
-func SmallStream(key string) KV {
+func SmallStream(key string) KV { return SmallStreamF(key, "f") }
+
+// SmallStreamF: SmallStream with the master entry's field name chosen (a name
+// of >= 2 bytes puts printable bytes behind the num-fields element, which is
+// what a damaged count needs to be read as a huge integer).
+func SmallStreamF(key, field string) KV {
 	var lp []byte
-	for _, e := range [][]byte{lpInt(2), lpInt(0), lpInt(1), lpStr("f"), lpInt(0),
+	for _, e := range [][]byte{lpInt(2), lpInt(0), lpInt(1), lpStr(field), lpInt(0),
 		lpInt(2), lpInt(0), lpInt(1), lpStr("v1"), lpInt(4),
 		lpInt(2), lpInt(5), lpInt(0), lpStr("v2"), lpInt(4)} {
 		lp = append(lp, e...)
@@ -647,8 +659,8 @@ func SmallStream(key string) KV {
 	raw.Write(EncLen(0))    // last id seq
 	raw.Write(EncLen(0))    // consumer groups
 	return KV{Key: []byte(key), Type: 15, Raw: raw.Bytes(), Ops: [][]string{
-		{"xadd", key, "1000-1", "f", "v1"},
-		{"xadd", key, "1005-0", "f", "v2"},
+		{"xadd", key, "1000-1", field, "v1"},
+		{"xadd", key, "1005-0", field, "v2"},
 		{"xsetid", key, "1005-0", "ENTRIESADDED", "2", "MAXDELETEDID", "0-0"},
 	}}
 }
@@ -665,4 +677,21 @@ func DumpPayload(kv KV) []byte {
 	binary.LittleEndian.PutUint64(e[:], c.Sum64())
 	b.Write(e[:])
 	return b.Bytes()
+}
+
+// LZFString: a string key whose value is `n` times the byte c (n >= 4), written
+// LZF-compressed (one literal, one back-reference) as Redis does for
+// compressible strings.
+func LZFString(key string, c byte, n int) KV {
+	l := n - 1 - 2 // back-reference of n-1 bytes
+	var comp []byte
+	if l < 7 {
+		comp = []byte{0, c, byte(l << 5), 0}
+	} else {
+		comp = []byte{0, c, 7 << 5, byte(l - 7), 0}
+	}
+	raw := append([]byte{0xC3}, EncLen(uint64(len(comp)))...)
+	raw = append(raw, EncLen(uint64(n))...)
+	raw = append(raw, comp...)
+	return KV{Key: []byte(key), Type: 0, Str: bytes.Repeat([]byte{c}, n), Raw: raw}
 }
